@@ -105,7 +105,9 @@ def rule_check(sc, r):
                     ok = (gc is not None and f["start"] <= gc)
                     if lk is not None:
                         ttl = lk
-                        last = st.get(("clock", e.get("client")), 0)
+                        # the resolver's clock = the latest timestamp issued so far (tso events carry no client id; the
+                        # extracted acceptor uses the same reading)
+                        last = tso_seen[-1] if tso_seen else 0
                         if ttl == 0 or (last >> 18) >= (f["start"] >> 18) + ttl:
                             ok = True
                     if not ok:
@@ -252,10 +254,12 @@ def main(tier, replay):
             return _mk(*a, **kw)
         for i in range(n):
             fk = rng.choice(["regionerr:EpochNotMatch", "regionerr:NotLeader", "regionerr:ServerIsBusy", "split", "split", "dropresp", "push_min_commit", "reader"])
-            if fk in ("push_min_commit", "reader"):
+            if fk == "reader" and rng.random() < 0.5:
+                fk = "reader_clockjump"   # the reader's clock jumps while its status check is on its way back
+            if fk in ("push_min_commit", "reader", "reader_clockjump"):
                 # another client reads at this instant: it meets the locks written so far (possibly a secondary whose
                 # primary is not prewritten yet) and may push the primary's min-commit ts under the committer's feet
-                cases.append(mk(f"{tag}-{i}-{fk}", sh, mode, pess, batch_size=bs, extras=[{"at": i, "what": fk, "k": ""}]))
+                cases.append(mk(f"{tag}-{i}-{fk}", sh, mode, pess, batch_size=bs, extras=[{"at": i, "what": fk, "k": (rng.choice(sh["keys"]) if fk == "reader_clockjump" else "")}]))
             elif fk == "split":
                 cases.append(mk(f"{tag}-{i}-split", sh, mode, pess, batch_size=bs, extras=[{"at": i, "what": "split", "k": rng.choice(sh["keys"])}]))
             else:
